@@ -1,4 +1,5 @@
 import LokiModel.C09.Bridge
+import LokiModel.C09.Quot
 /-!
 # C09 — symbolic comparisons only answer what holds for all values (property theorems)
 
@@ -21,6 +22,21 @@ under every valuation that does not distinguish the case of names — whenever i
 theorem C09_simp_preserves (ρ : String → Int) (hρ : CaseInsens ρ) (f : Nat) (pm : Bool) (e r : E)
     (h : simp f pm e = some r) : ev ρ r = ev ρ e :=
   simp_ev ρ hρ f pm e r h
+
+/-- the modelled `distribute_quotient` (the step of `simplify` that rewrites chained divisions, `(x/y)/d ↦ x/(y*d)`,
+`(s + t)/d ↦ s/d + t/d`, `(-x)/d ↦ -(x/d)`) preserves the value of every tree under exact (rational) division, for every
+rational valuation — whenever it returns.  `symbolic_op` on operands with quotients is otherwise outside the theorems
+(`Frag` has no quotients): there the direct oracle speaks. -/
+theorem C09_distq_preserves (ρ : String → Rat) (f : Nat) (pm : Bool) (e r : E)
+    (h : distributeQuotient f pm e = some r) : evQ ρ r = evQ ρ e :=
+  distq_ev ρ f pm e r h
+
+/-- non-vacuity: `n/2/2 ↦ n/(2*2)`, `(a/b + c)/d ↦ a/(b*d) + c/d` -/
+example : distributeQuotient DQFUEL false (.quot false (.quot false (.var "n") (.ilit 2)) (.ilit 2))
+    = some (.quot false (.var "n") (.prod false [.ilit 2, .ilit 2])) := by rfl
+example : distributeQuotient DQFUEL false (.quot false (.sum false [.quot false (.var "a") (.var "b"), .var "c"]) (.var "d"))
+    = some (.sum false [.quot false (.var "a") (.prod false [.var "b", .var "d"]), .quot false (.var "c") (.var "d")]) := by
+  rfl
 
 /-- **C09 (partial), answer `True`**: for all fragment operands and all six operators, outside the known class, if the
 modelled `symbolic_op` answers `True` then the comparison holds under every integer valuation. -/
